@@ -48,7 +48,14 @@ def changed(repo, baseline_path):
     with open(baseline_path) as f:
         base = json.load(f)
     cur = compute(repo)
-    return sorted(k for k in set(base) | set(cur) if base.get(k) != cur.get(k))
+    out = sorted(k for k in set(base) | set(cur) if base.get(k) != cur.get(k) and not k.startswith("__"))
+    try:
+        td = twin_diffs(repo)
+        if "__twin_diffs__" in base and td != base["__twin_diffs__"]:
+            out.append("twins differ (after await-erasure) in: %s" % ", ".join(sorted(set(td) ^ set(base["__twin_diffs__"]))))
+    except Exception:
+        pass
+    return out
 
 
 if __name__ == "__main__":
@@ -56,5 +63,65 @@ if __name__ == "__main__":
     repo = sys.argv[1] if len(sys.argv) > 1 else "/repo"
     here = os.path.dirname(os.path.dirname(os.path.abspath(__file__)))
     with open(os.path.join(here, "fingerprints.json"), "w") as f:
-        json.dump(compute(repo), f, indent=0, sort_keys=True)
+        fp = compute(repo)
+        fp["__twin_diffs__"] = twin_diffs(repo)
+        json.dump(fp, f, indent=0, sort_keys=True)
     print("wrote fingerprints for", repo)
+
+
+# ---- twin comparison (search guidance for C16) ------------------------------------------------------------------
+class _Erase(ast.NodeTransformer):
+    """await-erasure: what remains of the async twin once async/await/Async are removed"""
+
+    def visit_Await(self, node):
+        return self.visit(node.value)
+
+    def visit_AsyncFunctionDef(self, node):
+        self.generic_visit(node)
+        return ast.FunctionDef(name=node.name, args=node.args, body=node.body, decorator_list=node.decorator_list, returns=None, type_comment=None, lineno=0, col_offset=0)
+
+    def visit_AsyncWith(self, node):
+        self.generic_visit(node)
+        return ast.With(items=node.items, body=node.body, lineno=0, col_offset=0)
+
+    def visit_AsyncFor(self, node):
+        self.generic_visit(node)
+        return ast.For(target=node.target, iter=node.iter, body=node.body, orelse=node.orelse, lineno=0, col_offset=0)
+
+    def visit_comprehension(self, node):
+        self.generic_visit(node)
+        node.is_async = 0
+        return node
+
+    def visit_Name(self, node):
+        node.id = node.id.replace("Async", "").replace("_async", "")
+        return node
+
+    def visit_Attribute(self, node):
+        self.generic_visit(node)
+        node.attr = node.attr.replace("Async", "").replace("_async", "")
+        return node
+
+
+def _methods(path, erase):
+    with open(path) as f:
+        tree = _strip_doc(ast.parse(f.read()))
+    if erase:
+        tree = _Erase().visit(tree)
+    out = {}
+    for n in tree.body:
+        if isinstance(n, ast.ClassDef):
+            cname = n.name.replace("Async", "")
+            for m in n.body:
+                if isinstance(m, (ast.FunctionDef, ast.AsyncFunctionDef)):
+                    m.name = m.name.replace("Async", "")
+                    out["%s.%s" % (cname, m.name)] = ast.dump(ast.Module(body=m.body, type_ignores=[]))
+    return out
+
+
+def twin_diffs(repo):
+    """Methods of the device / io-manager classes whose bodies differ between the twins after await-erasure (a stable, small set on the
+    unchanged tree: file handling through aiofiles / executors, list comprehensions over async generators)."""
+    a = _methods(os.path.join(repo, "adb_shell", "adb_device.py"), False)
+    b = _methods(os.path.join(repo, "adb_shell", "adb_device_async.py"), True)
+    return sorted(k for k in set(a) | set(b) if a.get(k) != b.get(k))
